@@ -16,8 +16,10 @@ use swc_common::FileName;
 use swc_common::SourceMap;
 use swc_common::Spanned;
 use swc_ecma_ast::Decl;
+use swc_ecma_ast::DefaultDecl;
 use swc_ecma_ast::ExportAll;
 use swc_ecma_ast::ExportDecl;
+use swc_ecma_ast::ExportDefaultDecl;
 use swc_ecma_ast::ExportDefaultExpr;
 use swc_ecma_ast::ExportNamedSpecifier;
 use swc_ecma_ast::ExportNamespaceSpecifier;
@@ -112,6 +114,22 @@ impl<R: FsModuleResolver> Visit for ImportsVisitor<'_, R> {
             }
             .into(),
         );
+    }
+
+    fn visit_export_default_decl(&mut self, n: &ExportDefaultDecl) {
+        // `export default interface X { … }`
+        if let DefaultDecl::TsInterfaceDecl(decl) = &n.decl {
+            self.symbol_exports.set_default_export(
+                SymbolExportDefault::Renamed {
+                    export: Rc::new(SymbolExport::TsInterfaceDecl {
+                        decl: Rc::new(*decl.clone()),
+                        original_file: self.current_file.clone(),
+                        span: decl.span,
+                    }),
+                }
+                .into(),
+            );
+        }
     }
 
     fn visit_export_decl(&mut self, n: &ExportDecl) {
